@@ -121,6 +121,17 @@ class T_{uid}(Component):
     def up():
       s.out @= s.in_ * s.tbl[0] + s.tbl[1]
 
+class H_{uid}(Component):
+  def construct(s, seed):
+    # an integer parameter far outside the machine-word range (Python hashes ints modulo 2**61 - 1:
+    # 1 and 2**61 hash alike); the hardware depends on its high bits
+    s.in_ = InPort(Bits8)
+    s.out = OutPort(Bits8)
+    n = ((seed >> 61) * 16 + (seed & 7)) & 0xff
+    @update
+    def up():
+      s.out @= s.in_ + n
+
 class Top_{uid}(Component):
   def construct(s):
     s.in_ = InPort(Bits8)
@@ -156,6 +167,8 @@ def gen_param_design(c, uid):
                        "G_%s([[0], [1], [2]])", "G_%s([[0, 1], [2]])"] * 2
   if c.random() < 0.4:
     cands8 = cands8 + ["T_%s([2, 1])", "T_%s([3, 4])", "T_%s([2, 1])", "T_%s([5, 1])", "T_%s([3, 7])", "T_%s((2, 1))"] * 2
+  if c.random() < 0.3:
+    cands8 = cands8 + ["H_%s(1)", "H_%s(1 << 61)", "H_%s(2)", "H_%s(1 << 62)", "H_%s(3 + (1 << 61) - 1)", "H_%s(3)"] * 3
   cands16 = ["P_%s(Bits16, 1)", "P_%s(Bits16, 2)", "Q_%s(16, 2)", "Q_%s(16, 1)", "P_%s(Bits16, 1)"]
   for _ in range(c.randint(3, 7)):
     inst8.append(c.choice(cands8) % uid)
